@@ -259,15 +259,15 @@ def split_traces(rows):
     return [(s, (starts[k + 1] if k + 1 < len(starts) else len(rows))) for k, s in enumerate(starts)]
 
 
-def validate(ctx, prop, tag, events_path, scheds, results, binary=None, depth=0):
-    """Soft pass (report every rejected trace), then strict pass on the accepted ones. Returns #traces accepted."""
+CONFIRM_CAP = 40      # rejected traces re-executed per batch (a broken tree rejects hundreds; the first ones decide)
+CONFIRM_RUNS = 2
+
+
+def _soft_pass(ctx, prop, tag, events_path, d):
+    """One soft TLC pass over an event file: (rows, traces, {trace range: (kind, what, index of the offending line)})"""
     rows = lib.read_ndjson(events_path)
     if not rows:
-        return 0, 0
-    by_id = {s["id"]: s for s in scheds}
-    res_by_id = {r["id"]: r for r in results}
-    flags = fix_flags()
-    d = spec_dir(ctx, {"Trace_Subs_%s_soft.cfg" % prop: trace_cfg(prop, True, flags), "Trace_Subs_%s.cfg" % prop: trace_cfg(prop, False, flags)})
+        return rows, [], {}
     soft = ctx.tlc(["conc", d], "Trace_Subs", "Trace_Subs_%s_soft.cfg" % prop, workers=1, env={"TRACE": events_path}, timeout=2400,
                    deadlock=False, count=False, tag="trace-validation-soft-" + tag)
     if not soft.ok:
@@ -287,23 +287,47 @@ def validate(ctx, prop, tag, events_path, scheds, results, binary=None, depth=0)
         if tr is None or tr in bad:
             continue
         bad[tr] = (kind, what, idx)
-    skipped = 0
-    for (s, e), (kind, what, idx) in sorted(bad.items()):
+    return rows, traces, bad
+
+
+def validate(ctx, prop, tag, events_path, scheds, results, binary=None, depth=0):
+    """Soft pass (lists every rejected trace), confirmation of the rejected ones by re-execution, report, strict pass on the accepted
+    ones. Returns (#traces accepted, #traces rejected and confirmed, #rejections that did not reproduce)."""
+    by_id = {s["id"]: s for s in scheds}
+    res_by_id = {r["id"]: r for r in results}
+    flags = fix_flags()
+    d = spec_dir(ctx, {"Trace_Subs_%s_soft.cfg" % prop: trace_cfg(prop, True, flags), "Trace_Subs_%s.cfg" % prop: trace_cfg(prop, False, flags)})
+    rows, traces, bad = _soft_pass(ctx, prop, tag, events_path, d)
+    if not rows:
+        return 0, 0, 0
+    # A goroutine that was blocked on a mutex runs beside the scheduled actor once the mutex is free, and the machine may be slow: a single
+    # rejected trace is never a verdict. The gates make a genuine defect reproduce: every rejected schedule is executed again (twice);
+    # it counts only if it is rejected again at least once.
+    order = sorted(bad)
+    ids = [rows[s]["id"] for (s, e) in order]
+    reproduced = set(ids)
+    if binary is not None and ids:
+        tried = [i for i in ids if i in by_id][:CONFIRM_CAP]
+        again = set()
+        for attempt in range(CONFIRM_RUNS):
+            ep2, _ = replay(ctx, binary, "%s-confirm%d" % (tag, attempt + 1), [by_id[i] for i in tried], shards=4 if len(tried) >= 12 else 1)
+            rows2, _, bad2 = _soft_pass(ctx, prop, "%s-confirm%d" % (tag, attempt + 1), ep2, d)
+            again |= {rows2[s]["id"] for (s, e) in bad2}
+        reproduced = {i for i in tried if i in again}
+        not_tried = len(ids) - len(tried)
+        if not_tried:
+            ctx.notes.append("%d further rejected traces were not re-executed (cap %d per batch) and are not reported one by one" % (not_tried, CONFIRM_CAP))
+    flaky = sum(1 for i in ids[:CONFIRM_CAP] if i not in reproduced) if binary is not None else 0
+    for (s, e) in order:
+        if rows[s]["id"] in ids[:CONFIRM_CAP] and rows[s]["id"] not in reproduced and binary is not None:
+            kind, what, idx = bad[(s, e)]
+            ctx.notes.append("not reproduced: %s %s at event %s of %s" % (kind, what[:60], json.dumps({k: rows[idx].get(k) for k in ("ev", "k", "i", "j", "x", "y", "z")}), rows[s]["id"]))
+    for (s, e) in order:
+        kind, what, idx = bad[(s, e)]
         cid = rows[s]["id"]
-        ev = rows[idx]
-        r0 = res_by_id.get(cid) or {}
-        if depth == 0 and (r0.get("free_run") or r0.get("timeouts")):
-            # the machine was too slow for this run (a step did not settle in time, so goroutines may have overlapped and the
-            # order of lock-free reads in the log is not reliable): never a verdict - run the schedule again on its own
-            verdict = None
-            for attempt in range(3):
-                ep2, res2, _ = _run_shard(ctx, binary, "%s-confirm" % tag, [by_id[cid]])
-                if res2 and not (res2[0].get("free_run") or res2[0].get("timeouts")):
-                    verdict = validate(ctx, prop, tag + "-confirm", ep2, [by_id[cid]], res2, binary, depth=1)
-                    break
-            if verdict is None:
-                skipped += 1
+        if cid not in reproduced:
             continue
+        ev = rows[idx]
         if kind == "INV":
             invs = re.findall(r'"(\w+)"', what)
             inv = invs[0] if invs else "?"
@@ -314,10 +338,10 @@ def validate(ctx, prop, tag, events_path, scheds, results, binary=None, depth=0)
             key = "nonconformance:%s:%s" % (ev["ev"], ev["k"])
             msg = ("the recorded trace is not a behaviour of the specification: event #%d %s is not an enabled action of its actor"
                    % (idx - s, json.dumps({k: ev.get(k) for k in ("ev", "k", "i", "j", "x", "y", "z", "trig", "subs", "sinc", "sdec", "tinc", "tdec", "uncancelled", "wedged") if k in ev})))
-        ctx.violation(key, "%s; schedule %s" % (msg, cid),
+        ctx.violation(key, "%s; schedule %s (rejected again when re-executed)" % (msg, cid),
                       {"schedule": by_id.get(cid), "events": rows[s:e], "result": res_by_id.get(cid), "failing_event_index": idx - s, "verdict": kind, "detail": what})
-    if skipped:
-        ctx.notes.append("%d schedules could not be run undisturbed (machine too slow) and were not judged" % skipped)
+    if flaky:
+        ctx.notes.append("%d rejected traces did not reproduce in %d re-executions of the same schedule and were not counted (flake of the machinery)" % (flaky, CONFIRM_RUNS))
     good_rows = []
     ngood = 0
     for (s, e) in traces:
@@ -332,7 +356,7 @@ def validate(ctx, prop, tag, events_path, scheds, results, binary=None, depth=0)
         if not strict.ok:
             print(strict.out[-3000:])
             raise lib.Inconclusive("strict trace validation disagrees with the soft pass (%s)" % strict.error)
-    return ngood, len(bad)
+    return ngood, len(reproduced), flaky
 
 
 def model_check(ctx, cfgs, negative):
@@ -355,15 +379,16 @@ def generate_all(ctx, jobs, parallel=4):
 
 def run_batches(ctx, prop, binary, batches):
     """batches: [(tag, schedules)]: replayed and validated as ONE batch (one harness fan-out, two TLC runs). Returns totals."""
-    tot = dict(replayed=0, accepted=0, rejected=0, unreal=0, free=0, distinct=set(), samples=[], per_family={})
+    tot = dict(replayed=0, accepted=0, rejected=0, flaky=0, unreal=0, free=0, distinct=set(), samples=[], per_family={})
     scheds = [s for _, ss in batches for s in ss]
     if not scheds:
         return tot
     ep, results = replay(ctx, binary, "all", scheds)
-    good, bad = validate(ctx, prop, "all", ep, scheds, results, binary)
+    good, bad, flaky = validate(ctx, prop, "all", ep, scheds, results, binary)
     tot["replayed"] = len(results)
     tot["accepted"] = good
     tot["rejected"] = bad
+    tot["flaky"] = flaky
     tot["unreal"] = sum(1 for r in results if r.get("unrealised"))
     tot["free"] = sum(1 for r in results if r.get("free_run"))
     tot["timeouts"] = sum(1 for r in results if r.get("timeouts"))
